@@ -455,6 +455,29 @@ fn short(s: &str) -> String {
 }
 
 pub fn check(case: &Case, trace: &Trace, cfg: BuildCfg, variant: Variant) -> CheckResult {
+    let mut r = check_inner(case, trace, cfg, variant);
+    // C11: "after a caught user panic the mock remains usable and verification reflects the calls actually
+    // matched": a discrepancy at or after an operation that ended in a (caught) user panic also refutes C11
+    if let Some(d) = &mut r.disc {
+        let idx = d
+            .at
+            .strip_prefix("op ")
+            .and_then(|rest| rest.split(' ').next())
+            .and_then(|n| n.parse::<usize>().ok())
+            .unwrap_or(usize::MAX);
+        let user_panic_before = trace
+            .ops
+            .iter()
+            .take(idx.saturating_add(1).min(trace.ops.len()))
+            .any(|o| matches!(o.obs, Obs::UserPanic(_)));
+        if user_panic_before && !d.props.contains(&"C11") {
+            d.props.push("C11");
+        }
+    }
+    r
+}
+
+fn check_inner(case: &Case, trace: &Trace, cfg: BuildCfg, variant: Variant) -> CheckResult {
     let mut stats = Stats::default();
     let mut result = |disc: Option<Discrepancy>, dc: bool, stats: Stats| CheckResult {
         disc,
